@@ -2,7 +2,7 @@
    The model is a total function: every loop is structural recursion over a listed object or an explicit fuel that is
    proved sufficient (C17/C18); that is the formal content of "never hangs" for the modelled logic.  The partial Go
    operations on Kubernetes-provided data are listed below with the fact that makes each one safe. *)
-From Esc Require Import SpecAws Examples proofs.AwsProofs proofs.ScanLemmas proofs.ScanState proofs.ScanTaint proofs.ScanOrder proofs.ScanRun.
+From Esc Require Import SpecAws Examples proofs.AwsProofs proofs.ScanLemmas proofs.ScanState proofs.ScanTaint proofs.ScanOrder proofs.ScanRun proofs.ScanPrelude.
 
 (* provider-id parsing: total on every byte string; fewer than five '/'-separated parts give the empty instance id,
    for which GetInstance issues no call and returns an error (F4 repair) *)
@@ -44,6 +44,32 @@ Theorem c20_run_once_ends : forall s,
   (snd res = OutExit /\ exists nr, In nr (fst res) /\ r_out (snd nr) = OutExit).
 Proof. intros s. exact (run_groups_ends s (s_groups s) (s_cloud s)). Qed.
 Print Assumptions c20_run_once_ends.
+
+(* RunOnce with its prelude (ds: outcomes of the successive provider refresh / rebuild describes, missing = success):
+   the prelude ends the run — RunOnce returns Build's error, the only way besides the three above that RunForever
+   returns — exactly when the first refresh fails and a rebuild fails (the first one, or the second one after the first
+   rebuilt provider failed to refresh); otherwise the groups are scanned as c20_run_once_ends says, from the snapshot
+   after_prelude ds s, whatever the last refresh said.  This is a provider-wide condition (no credentials / no cloud API
+   for two calls five seconds apart), modelled as the code has it. *)
+Theorem c20_prelude_stops_iff : forall ds,
+  prelude ds = PStop <-> (exists t, ds = false :: false :: t) \/ (exists t, ds = false :: true :: false :: false :: t).
+Proof. exact prelude_stop_iff. Qed.
+Print Assumptions c20_prelude_stops_iff.
+
+Theorem c20_run_once_p_ends : forall ds s,
+  let res := run_once_p ds s in
+  (prelude ds = PStop /\ res = ([], OutErr)) \/
+  (prelude ds <> PStop /\ res = run_once (after_prelude ds s) /\
+   ((snd res = OutOk /\ length (fst res) = length (s_groups s)) \/
+    (snd res = OutErr /\ (length (fst res) < length (s_groups s))%nat) \/
+    (snd res = OutFatal /\ exists nr, In nr (fst res) /\ r_out (snd nr) = OutFatal) \/
+    (snd res = OutExit /\ exists nr, In nr (fst res) /\ r_out (snd nr) = OutExit))).
+Proof. exact run_once_p_ends. Qed.
+Print Assumptions c20_run_once_p_ends.
+
+(* a transient refresh failure (one failed describe, then success) does not end the run *)
+Example c20_prelude_ex : prelude [false; true; true] = PGo true /\ prelude [false; false] = PStop /\ prelude [false; true; false; true; false] = PGo true.
+Proof. repeat split. Qed.
 
 (* no error latch: whatever failed, the only memory a scan leaves is the lock (armed only by an accepted or, in dry
    mode, decided increase; otherwise the lock the scan found, released if expired) — see C02 — so the next scan is the
